@@ -50,6 +50,8 @@ def r1_siblings(facts, rep):
 
 
 def run(fx, rep, tier):
+    from . import foundation as _fnd
+    _fnd.units(fx["dev"], rep, "C13-F", fx, tier)
     rep.assume("the value laws themselves (associativity, distributivity, cancellation) follow from exact rational arithmetic "
                "(C01) and from both operands being normalised identically and reconstructed consistently (rules below); they "
                "are argued, not machine-checked")
